@@ -7,3 +7,4 @@ pub mod zoo;
 pub mod frontend;
 pub mod alloc;
 pub mod sandbox;
+pub mod lexer;
